@@ -282,7 +282,7 @@ def run_case(sh, i, plan):
                     continue
                 fname, fspec = rng.choice(lit_fields)
                 members = fspec.info["members"]
-                cands = [x for x in [0, 1, 2, True, False, None, "a", "1", "zzz", 1.0, 3, "", "True", -1, 77, "x y", "null"]
+                cands = [x for x in [0, 1, 2, True, False, None, "a", "1", "zzz", 1.0, 3, "", "True", -1, 77, "x y", "null", [1], {"a": 1}, ["a"]]
                          if not any(type(m_) is type(x) and m_ == x for m_ in members)]
                 if not cands:
                     continue
@@ -311,7 +311,8 @@ def run_case(sh, i, plan):
             # Literal membership
             for lit in [s for s in spec.walk() if s.kind == "literal"][:2]:
                 members = lit.info["members"]
-                for x in [0, 1, 2, True, False, None, "a", "1", "zzz", 1.0, 3, "", "True", -1, 77, 10**20, "x y", "null", "[1]"]:
+                for x in [0, 1, 2, True, False, None, "a", "1", "zzz", 1.0, 3, "", "True", -1, 77, 10**20, "x y", "null", "[1]",
+                          [1], {"a": 1}, {1}, bytearray(b"a"), ["a"]]:  # (unhashable non-members are non-members like any other)
                     is_member = any(type(m) is type(x) and m == x for m in members)
                     try:
                         with quiet():
